@@ -1,0 +1,11 @@
+//go:build verif
+
+package metrics
+
+import "context"
+
+// VerifPublishObserved reports the publishObserved mark of ctx to the verification harness.
+func VerifPublishObserved(ctx context.Context) bool { return publishAlreadyObserved(ctx) }
+
+// VerifSubscribeObserved reports the subscribeObserved mark of ctx to the verification harness.
+func VerifSubscribeObserved(ctx context.Context) bool { return subscribeAlreadyObserved(ctx) }
